@@ -35,16 +35,21 @@ static void email_check(const char *sub, const char *v, size_t n) {
     typedef eav_result_t *(*email_fn)(const char *, size_t, bool);
     static const email_fn EM[4] = { is_822_email, is_5321_email, is_5322_email, is_6531_email };
     static const char *const MN[4] = { "822", "5321", "5322", "6531" };
-    char a[400]; if (n + 8 > sizeof a) return;
-    memcpy(a, "x@a.", 4); memcpy(a + 4, v, n); a[4 + n] = 0;
-    if (ref_special(a + 2, n + 2)) return;
+    /* the label in front of the row must not matter (unless the two together are a reserved name): a plain label, reserved words, another TLD, the row itself */
+    static const char *const FRONT[6] = { "a", "example", "test", "com", "xn--p1ai", NULL };
     int exp = rt_lookup(&RT_PUNY, v, n); if (!exp) return;
-    for (int m = 0; m < 4; m++) {
-        char cfg[32]; snprintf(cfg, sizeof cfg, "mode=%s", MN[m]); mc_current(sub, cfg, v, n);
-        eav_result_t *r = EM[m](a, n + 4, true); int rc = r->rc; eav_result_free(r);
-        MC_ADD(C_EVAL, 1); MC_ADD(C_VIAEMAIL, 1);
-        if (rc != exp) { char w[64]; snprintf(w, sizeof w, "row-through-is_%s_email:%s", MN[m], rc < 0 ? "not-found" : "wrong-class");
-            mc_violation(sub, w, "", cfg, v, n, "CSV class %s(%d) but is_%s_email(x@a.LABEL, tld on) returned %d", rt_name[exp], exp, MN[m], rc); }
+    for (int f = 0; f < 6; f++) {
+        char a[700]; if (2 * n + 16 > sizeof a) return;
+        size_t fl; if (FRONT[f]) { fl = strlen(FRONT[f]); memcpy(a + 2, FRONT[f], fl); } else { fl = n; memcpy(a + 2, v, n); }
+        a[0] = 'x'; a[1] = '@'; a[2 + fl] = '.'; memcpy(a + 3 + fl, v, n); a[3 + fl + n] = 0; size_t an = 3 + fl + n;
+        if (ref_special(a + 2, an - 2)) continue;
+        for (int m = 0; m < 4; m++) {
+            char cfg[48]; snprintf(cfg, sizeof cfg, "mode=%s front=%d", MN[m], f); mc_current(sub, cfg, v, n);
+            eav_result_t *r = EM[m](a, an, true); int rc = r->rc; eav_result_free(r);
+            MC_ADD(C_EVAL, 1); MC_ADD(C_VIAEMAIL, 1);
+            if (rc != exp) { char w[64]; snprintf(w, sizeof w, "row-through-is_%s_email:%s", MN[m], rc < 0 ? "not-found" : "wrong-class");
+                mc_violation(sub, w, "", cfg, v, n, "CSV class %s(%d) but is_%s_email(%s, tld on) returned %d", rt_name[exp], exp, MN[m], a, rc); }
+        }
     }
 }
 
